@@ -35,21 +35,7 @@ verus! {
 //@  |         ensures r == self.v_layout_ahead(),
 //@end
 
-//@trait BLD Builder
-//@  raw
-//@  |     spec fn get_result_pre(&self) -> bool;
-//@  type Output
-//@  fn get_result
-//@  |         requires old(self).get_result_pre(),
-//@end
-
-//@trait LRB LRBuilder
-//@  raw
-//@  |     spec fn reduce_pre(&self, context: &C, prod_len: usize) -> bool;
-//@  fn shift_action
-//@  fn reduce_action
-//@  |         requires old(self).reduce_pre(context, prod_len),
-//@end
+//@include builder_traits.inc
 
 //@enum LRB TreeNode
 //@end
@@ -82,7 +68,8 @@ pub open spec fn node_layout<'i, I: Input + ?Sized, P, TK>(n: TreeNode<'i, I, P,
 
 //@impl LRB /^impl < 'i , I , P , TK > Builder for TreeBuilder/
 //@  raw
-//@  |     open spec fn get_result_pre(&self) -> bool { self.stk().len() > 0 }
+//@  |     open spec fn v_tracks(&self) -> bool { true }
+//@  |     open spec fn v_depth(&self) -> nat { self.stk().len() }
 //@  type Output
 //@  fn get_result ret=r
 //@  |         ensures
@@ -92,7 +79,7 @@ pub open spec fn node_layout<'i, I: Input + ?Sized, P, TK>(n: TreeNode<'i, I, P,
 
 //@impl LRB /^impl < 'i , I , C , S , P , TK > LRBuilder < 'i , I , C , S , P , TK > for TreeBuilder/
 //@  raw
-//@  |     open spec fn reduce_pre(&self, context: &C, prod_len: usize) -> bool { prod_len <= self.stk().len() }
+//@  |     open spec fn reduce_pre(&self, context: &C, prod_len: usize) -> bool { true }
 //@  fn shift_action
 //@  |         ensures
 //@  |             final(self).stk().len() == old(self).stk().len() + 1, // [C02]
@@ -128,7 +115,8 @@ impl vstd::std_specs::convert::FromSpecImpl<SourceSpan> for Range<usize> {
 
 //@impl LRB /^impl < 'i , I > Builder for SliceBuilder/
 //@  raw
-//@  |     open spec fn get_result_pre(&self) -> bool { true }
+//@  |     open spec fn v_tracks(&self) -> bool { false }
+//@  |     open spec fn v_depth(&self) -> nat { 0 }
 //@  type Output
 //@  fn get_result ret=r
 //@  |         ensures r == old(self).out(), final(self).out() == old(self).out(), final(self).inp() == old(self).inp(), // [C14]
